@@ -216,6 +216,9 @@ fn model(log: &[Rec], setups: &[Setup], exact_first_seen: bool, m: &mut Mon) {
                     }
                 }
                 durable = mem.clone();
+                // the failed-install count that survives a restart is what the store holds: whether the library
+                // stages it before or after reporting the metric is its own business (what the store must hold once
+                // the check is over is judged at Idle)
                 if await_commit && finish.is_some() {
                     let fin_ok = matches!(snapshot.get("update_finish_time"), Some(Val::I(v)) if Some(*v as i128) == finish.map(|f| f / 1000));
                     let tv = match snapshot.get("target_version") {
@@ -242,6 +245,10 @@ fn model(log: &[Rec], setups: &[Setup], exact_first_seen: bool, m: &mut Mon) {
                     mem.target = None;
                     durable = mem.clone();
                 }
+                // the failed-install count that survives a restart is what the store holds: whether the library
+                // stages it before or after reporting the metric is its own business (what the store must hold once
+                // the check is over is judged at Idle)
+                durable.failed_installs = committed_failed_installs.unwrap_or(durable.failed_installs);
             }
             Ev::PlanCreate { response, answer, .. } => {
                 if let Ok(id) = answer {
